@@ -87,7 +87,7 @@ PROPS = {
         "assumptions": COMMON_ASSUMPTIONS,
     },
     "C18": {
-        "lean_modules": ["Perp.Props.C18", "Perp.Props.C18F", "Perp.Props.SatA.VammLift", "Perp.Props.SatA.C18W", "Perp.Props.SatA", "Perp.Props.Capstone", "Perp.Props.MonitorSound"],
+        "lean_modules": ["Perp.Props.C18", "Perp.Props.C18F", "Perp.Props.SatA.VammLift", "Perp.Props.SatA.C18W", "Perp.Props.SatA", "Perp.Props.Capstone", "Perp.Props.MonitorSound", "Perp.Props.C18FRec"],
         "runs": lambda tier, seed: [vamm_run(tier, seed), feed_run(tier, seed)] + world_runs(tier, seed),
         "rule": VAMM_RULE + " || price feed unit histories on the real margined_pricefeed: append / append-multiple by owner and strangers with non-decreasing "
                 "timestamps (plus a malformed share: future / out-of-order), GetPrice / GetPreviousPrice{0..7} / GetTwapPrice over intervals 0..1e7, two keys",
@@ -128,12 +128,12 @@ PROPS = {
         "rule": WORLD_RULE, "assumptions": WORLD_ASSUMPTIONS,
     },
     "C14": {
-        "lean_modules": ["Perp.Props.VammGuards", "Perp.Props.EngineGuards", "Perp.Props.WorldInv", "Perp.Props.SatF09", "Perp.Props.SatF14", "Perp.Props.SatF", "Perp.Props.Capstone", "Perp.Props.MonitorSound"],
+        "lean_modules": ["Perp.Props.VammGuards", "Perp.Props.EngineGuards", "Perp.Props.WorldInv", "Perp.Props.SatF09", "Perp.Props.SatF14", "Perp.Props.SatF", "Perp.Props.Capstone", "Perp.Props.MonitorSound", "Perp.Props.SatExtra3"],
         "runs": lambda tier, seed: world_runs(tier, seed) + [vamm_run(tier, seed, 600, 10000)],
         "rule": WORLD_RULE, "assumptions": WORLD_ASSUMPTIONS,
     },
     "C20": {
-        "lean_modules": ["Perp.Props.VammGuards", "Perp.Props.EngineGuards", "Perp.Props.SatCBase", "Perp.Props.SatCFlow", "Perp.Props.SatCCaps", "Perp.Props.SatC", "Perp.Props.Capstone", "Perp.Props.MonitorSound"],
+        "lean_modules": ["Perp.Props.VammGuards", "Perp.Props.EngineGuards", "Perp.Props.SatCBase", "Perp.Props.SatCFlow", "Perp.Props.SatCCaps", "Perp.Props.SatC", "Perp.Props.Capstone", "Perp.Props.MonitorSound", "Perp.Props.Inst"],
         "runs": lambda tier, seed: world_runs(tier, seed) + [vamm_run(tier, seed, 600, 10000)],
         "rule": WORLD_RULE, "assumptions": WORLD_ASSUMPTIONS,
     },
@@ -180,7 +180,7 @@ PROPS = {
         "rule": WORLD_RULE, "assumptions": WORLD_ASSUMPTIONS,
     },
     "C13": {
-        "lean_modules": ["Perp.Props.LiqTwin", "Perp.Props.SatGTwin", "Perp.Props.SatGDeposit", "Perp.Props.SatGRun", "Perp.Props.SatGLedger", "Perp.Props.SatGOpen", "Perp.Props.SatGClose", "Perp.Props.SatGOpenTx", "Perp.Props.SatGCloseTx", "Perp.Props.SatGWitness", "Perp.Props.SatG", "Perp.Props.SatExtra"],
+        "lean_modules": ["Perp.Props.LiqTwin", "Perp.Props.SatGTwin", "Perp.Props.SatGDeposit", "Perp.Props.SatGRun", "Perp.Props.SatGLedger", "Perp.Props.SatGOpen", "Perp.Props.SatGClose", "Perp.Props.SatGOpenTx", "Perp.Props.SatGCloseTx", "Perp.Props.SatGWitness", "Perp.Props.SatG", "Perp.Props.SatGReduce", "Perp.Props.SatExtra"],
         "runs": lambda tier, seed: twin_runs(tier, seed) + world_runs(tier, seed, q=120, qn=2, t=1200, tn=6),
         "rule": WORLD_RULE + " || twin mode: two deployments identical except the collateral (cw20 vs native, 6 decimals) driven in lock-step; each native call attaches exactly what the cw20 run pulled from the caller; after every operation positions, vAMM state, engine state and per-account balance deltas are compared",
         "assumptions": WORLD_ASSUMPTIONS,
